@@ -5,8 +5,10 @@ import (
 	"errors"
 	"fmt"
 	"io"
+	"net/http/httptest"
 	"strings"
 	"testing"
+	"time"
 
 	connect "github.com/bufbuild/connect-go"
 
@@ -536,12 +538,91 @@ func c16Check(c *ev.Collector, k c16Case) {
 	}
 }
 
+// c16CtxEnds: the request context ends (cancel at the last byte of the request
+// body, or a deadline expiring during a slow upload) after dispatch but before
+// the handler's first Receive returns.  Whatever the library then does with the
+// call, every interceptor must still have wrapped it exactly once, in
+// declaration order.
+func c16CtxEnds(t *testing.T, c *ev.Collector) {
+	idx := 0
+	for _, p := range AllProtos {
+		for _, kind := range AllKinds {
+			for _, how := range []string{"cancel-at-last-byte", "deadline-during-upload"} {
+				for _, grouping := range []string{"one-group", "two-groups"} {
+					idx++
+					if !ev.Mine(idx) {
+						continue
+					}
+					key := fmt.Sprintf("ctx-ends/%s/%s/%s/%s", p, kind, how, grouping)
+					c.Case(key, true)
+					Bubble(t, func() {
+						var log []string
+						a, b, d := &logI{id: 1, log: &log}, &logI{id: 2, log: &log}, &logI{id: 3, log: &log}
+						opts := []connect.HandlerOption{connect.WithInterceptors(a, b, d)}
+						if grouping == "two-groups" {
+							opts = []connect.HandlerOption{connect.WithInterceptors(a, b), connect.WithOptions(connect.WithInterceptors(d))}
+						}
+						h := NewHandler(kind, func(ctx context.Context, s HStream) error {
+							log = append(log, "core")
+							_, _ = s.Receive()
+							return nil
+						}, opts...)
+						ctx, cancel := context.WithCancel(context.Background())
+						defer cancel()
+						body := &endingReader{data: RawBody(p, kind, false, []byte{7})}
+						req := RawRequest(ctx, p, kind, false, body)
+						if how == "cancel-at-last-byte" {
+							body.atEnd = cancel
+						} else {
+							body.pause = 200 * time.Millisecond
+							if p == PConnect {
+								req.Header.Set("Connect-Timeout-Ms", "50")
+							} else {
+								req.Header.Set("Grpc-Timeout", "50m")
+							}
+						}
+						rec := httptest.NewRecorder()
+						g := GuardedFor(time.Hour, func() { h.ServeHTTP(rec, req) })
+						c.AddTransitions(int64(len(log)) + 1)
+						c.AddStates(int64(len(log)) + 1)
+						c.AddTraces(1)
+						tags := []string{"kind=" + kind.String(), "side=handler", "ctx-ends-during-request"}
+						if g.Hung || g.Panicked {
+							c.Violation("TestC16", "terminates", "hang-or-panic", tags, key, "%s: hung=%v panic=%v", key, g.Hung, g.Panic)
+							c.Outcome("violation")
+							BailIfStuck(c, g)
+							return
+						}
+						var enters []string
+						for _, e := range log {
+							if strings.HasPrefix(e, "enter:") {
+								enters = append(enters, e)
+							}
+						}
+						if strings.Join(enters, " ") != "enter:1 enter:2 enter:3" {
+							c.Violation("TestC16", "wraps-once", "mismatch", tags, key, "%s: the interceptors that wrapped the call: %v (full log %v); want each of 1 2 3 once, in order; response %d %q", key, enters, log, rec.Code, clip(rec.Body.String(), 120))
+							c.Outcome("violation")
+							return
+						}
+						c.Outcome("ok")
+					})
+				}
+			}
+		}
+	}
+}
+
 func TestC16(t *testing.T) {
 	c := ev.New("C16")
 	defer func() { _ = c.Finish() }()
 	c.SetRule("configuration enumeration: interceptor lists of length 0..n with nil at any subset of positions x every composition into consecutive WithInterceptors groups x an optional empty group at every position x every bundling of the groups into wrapper bundles x wrappers {flat, WithOptions, With{Client,Handler}Options, Side(WithOptions), WithOptions(WithOptions)} (all combinations for <=2 bundles, uniform for more), and every option tree (direct groups and nested WithOptions / With{Client,Handler}Options composites as siblings, nesting depth per bounds) over 2..4 single-interceptor groups, x {unary, client, server, bidi} x {client, handler} x protocols (rotating); each configuration is built with the real option constructors, one real call is made and the interceptor event log is compared with the reference onion of the flat non-nil list; non-trivial = at least one non-nil interceptor")
 	c.Assume("interceptors observe only their own first Send/Receive per call", "one protocol per configuration (rotating): ordering logic is protocol independent")
 	if ev.ReplayFile() != "" {
+		var sk c16SchedCase
+		if _, err := ev.LoadReplay(&sk); err == nil && sk.Bound > 0 {
+			c16SchedReplay(t, c, sk)
+			return
+		}
 		var k c16Case
 		if _, err := ev.LoadReplay(&k); err != nil {
 			t.Fatal(err)
@@ -575,6 +656,8 @@ func TestC16(t *testing.T) {
 			}
 		}
 	}
+	c16CtxEnds(t, c)
+	c16Sched(t, c, thorough)
 	// option trees: every bracket expression (mixed direct groups and nested
 	// composites as siblings) over single-interceptor groups
 	type treeDim struct{ n, depth int }
@@ -609,4 +692,3 @@ func TestC16(t *testing.T) {
 	c.Bound("option_tree_depth_at_2_3_4_leaves", dims[0].depth*100+dims[1].depth*10+dims[2].depth)
 	c.Sample(map[string]any{"cases_per_shard_base": len(cases), "option_trees": trees})
 }
-
